@@ -68,7 +68,8 @@ PEEL = {
     "diverges-at:testcase.py:TestCase._resolve_head_references": "resolve-head-sorted",
     "timing:timeout-flag-differs:empty-test": "empty-test-timeout",
 }
-MAX_PEEL = 3
+FIX_ORDER = ["resolve-head-sorted", "empty-test-timeout"]
+KEY_OF_FIX = {v: k for k, v in PEEL.items()}
 
 
 def floors(tier):
@@ -171,14 +172,29 @@ def _run(ctx, case, proj, tag, hashseed, fixes, breaks):
 
 
 def run_case(ctx, case, idx, proj, breaks=None, peel_budget=None):
-    """peel_budget: one-element list holding the number of cases of this chunk that may still be peeled (None = no cap)."""
+    """peel_budget: one-element list holding the number of cases of this chunk that may still be peeled (None = no cap).
+
+    Level 0 is the judged comparison.  Further levels re-run the case with candidate repairs monkeypatched (cumulative):
+      * a divergence keyed by a mechanism with a known repair: that repair is applied next (exposes what hides behind it);
+      * a divergence of an unrecognised mechanism (typically ``same-draws-different-test:*``: the first visible effect is far
+        from its cause) is held back as *pending* and the known repairs are applied one by one: if it disappears with a
+        repair it is attributed to that repair's mechanism (attribution by intervention), if it survives all of them it is
+        reported under its own key - a new source.
+    """
     from vlib.monitors import rngtap
 
     tag0 = f"{case['sut']}:{case['algo']}:seed={case['seed']}:{case['budget']}:{case['ag']}"
     hss = case["hashseeds"]
     fixes: list[str] = []
     seen_keys: list[str] = []
-    for level in range(MAX_PEEL + 1):
+    pending: list[tuple] = []   # (key, desc, case-dict) of unrecognised mechanisms not yet attributed
+
+    def emit(key, desc, wcase):
+        if key not in seen_keys:
+            seen_keys.append(key)
+            ctx.witness(key, desc, wcase)
+
+    for level in range(len(FIX_ORDER) + 1):
         runs = []
         for j, hs in enumerate(hss):
             res, why = _run(ctx, case, proj, f"{idx}_{level}_{j}", hs, fixes, breaks)
@@ -186,17 +202,21 @@ def run_case(ctx, case, idx, proj, breaks=None, peel_budget=None):
                 ctx.inconclusive_because(f"{tag0} hashseed={hs} fixes={fixes}: {why}")
             runs.append(None if why else res)
         if runs[0] is None:
-            return
+            break
         next_fix = None
+        diverging = 0
+        unjudged = 0
         for j in range(1, len(runs)):
             if runs[j] is None:
+                unjudged += 1
                 continue
             dg = rngtap.diagnose(runs[0], runs[j])
             pair = [hss[0], hss[j]]
             if dg["kind"] == "timing" and dg["key"].endswith(":nonempty-test"):
-                # a non-empty test ran into the executor's wall-clock timeout in one run only: machine load, not a verdict
+                # a non-empty test ran into a wall-clock timeout in one run only: machine load, not a verdict
                 ctx.anomaly("timing:wall-clock-timeout-of-nonempty-test-in-one-run-only")
                 ctx.count("pairs_not_judged_because_of_load")
+                unjudged += 1
                 continue
             if level == 0:
                 cls = [f"algo:{case['algo']}", f"ag:{case['ag']}", "budget:iterations" if "maximum_iterations" in case["budget"] else "budget:executions",
@@ -216,29 +236,47 @@ def run_case(ctx, case, idx, proj, breaks=None, peel_budget=None):
                 continue
             if dg["kind"] == "sut-hash-order":
                 ctx.anomaly("sut-hash-order:test-builds-a-set")
+                unjudged += 1
                 continue
             key = dg["key"]
+            diverging += 1
             if dg["files_same"]:
                 ctx.anomaly(f"latent:{key}")
-            elif key not in seen_keys:
-                seen_keys.append(key)
+            else:
                 fo = rngtap.first_output_difference(rngtap.test_files(runs[0]), rngtap.test_files(runs[j]))
                 detail = {k: v for k, v in dg.items() if k not in ("exec_detail",)}
                 desc = (f"{tag0}: PYTHONHASHSEED {pair[0]} vs {pair[1]} export different test files"
                         + (f" (with candidate repairs {fixes} applied)" if fixes else "") + f"; mechanism {key}; first differing line "
                         f"{fo and fo['lineno']}: {fo and fo['line_a']!r} vs {fo and fo['line_b']!r}")
-                ctx.witness(key, desc, {"case": case, "pair": pair, "fixes_applied": list(fixes), "diagnosis": detail})
+                wcase = {"case": case, "pair": pair, "fixes_applied": list(fixes), "diagnosis": detail}
+                if key in PEEL:
+                    emit(key, desc, wcase)
+                elif key not in [p[0] for p in pending]:
+                    pending.append((key, desc, wcase))
             if key in PEEL and PEEL[key] not in fixes and next_fix is None:
                 next_fix = PEEL[key]
+        if diverging == 0:
+            if pending and fixes and unjudged == 0:
+                # the held-back divergence is gone now that fixes[-1] is applied
+                attributed = KEY_OF_FIX[fixes[-1]]
+                for key, desc, wcase in pending:
+                    wcase = dict(wcase, observed_as=key, disappears_with=fixes[-1])
+                    emit(attributed, desc + f"; observed as {key}, gone when candidate repair {fixes[-1]} is applied", wcase)
+                pending = []
+            break
+        if next_fix is None and pending:
+            next_fix = next((f for f in FIX_ORDER if f not in fixes), None)
         if next_fix is None:
-            return
-        if peel_budget is not None and level == 0:
+            break
+        if peel_budget is not None and level == 0 and not pending:
             if peel_budget[0] <= 0:
                 ctx.count("pairs_not_peeled_for_cost")
-                return
+                break
             peel_budget[0] -= 1
         fixes.append(next_fix)
-    ctx.anomaly("peel-depth-exhausted")
+    # whatever is still pending survived every candidate repair (or could not be re-examined): its own mechanism
+    for key, desc, wcase in pending:
+        emit(key, desc, wcase)
 
 
 def run_chunk(spec, ctx):
